@@ -354,6 +354,15 @@ func c04vectorised(name string, N, nSets, nBlocks, T int, padCells, padSteps int
 			}
 		}
 	}
+	wrAssertCellsEqualSingle(name, w, params0, inputs0, states0, outputs0, states, outputs, N, nSets, nBlocks, T)
+}
+
+// wrAssertCellsEqualSingle: every cell of a vectorised run equals the same model run on that cell
+// alone (fresh model object, the cell's parameter column, input block and state row).
+func wrAssertCellsEqualSingle(name string, w *wrSetup, params0 data.ND2Float64, inputs0 data.ND3Float64, states0 data.ND2Float64, outputs0 data.ND3Float64,
+	states data.ND2Float64, outputs data.ND3Float64, N, nSets, nBlocks, T int) {
+	nI, nO := len(w.desc.Inputs), len(w.desc.Outputs)
+	nS := states.Len(1)
 	// every cell equals the same model run on that cell alone
 	for c := 0; c < N; c++ {
 		w1 := wrNew(name, 3)
